@@ -293,19 +293,26 @@ class Timeout(Exception):
 
 
 def call_with_timeout(fn, seconds: float, *a, **kw):
-    """Run fn in this process under SIGALRM (main thread only)."""
+    """Run fn in this process under SIGALRM (main thread only).  A watchdog shorter than two seconds that fires is tried once
+    more with ten times the budget: ITIMER_REAL counts wall-clock time, so a busy machine or a collector pause must not
+    be reported as "does not return" (a call that really loops still times out)."""
     import signal
 
     def handler(signum, frame):
         raise Timeout()
 
-    old = signal.signal(signal.SIGALRM, handler)
-    signal.setitimer(signal.ITIMER_REAL, seconds)
-    try:
-        return fn(*a, **kw)
-    finally:
-        signal.setitimer(signal.ITIMER_REAL, 0)
-        signal.signal(signal.SIGALRM, old)
+    budgets = [seconds, seconds * 10] if seconds < 2.0 else [seconds]
+    for i, budget in enumerate(budgets):
+        old = signal.signal(signal.SIGALRM, handler)
+        signal.setitimer(signal.ITIMER_REAL, budget)
+        try:
+            return fn(*a, **kw)
+        except Timeout:
+            if i == len(budgets) - 1:
+                raise
+        finally:
+            signal.setitimer(signal.ITIMER_REAL, 0)
+            signal.signal(signal.SIGALRM, old)
 
 
 # --------------------------------------------------------------------------------------------
